@@ -24,12 +24,18 @@ type Stream struct {
 }
 
 func (s *Stream) Write(p []byte) (int, error) {
+	if zzsim.Halting() {
+		return len(p), nil // the program has exited: nothing it still does is seen
+	}
 	s.mu.Lock()
 	s.buf = append(s.buf, p...)
 	s.mu.Unlock()
 	return len(p), nil
 }
 func (s *Stream) WriteString(p string) (int, error) {
+	if zzsim.Halting() {
+		return len(p), nil
+	}
 	s.mu.Lock()
 	s.buf = append(s.buf, p...)
 	s.mu.Unlock()
@@ -171,6 +177,9 @@ func fsFault(name string, kinds ...string) string {
 
 // WriteFile replaces ioutil.WriteFile / os.WriteFile in cmd/php-parser.
 func WriteFile(name string, data []byte, perm os.FileMode) error {
+	if zzsim.Halting() {
+		return nil // the program has exited
+	}
 	switch fsFault(name, "write-err", "write-torn") {
 	case "write-err":
 		return &os.PathError{Op: "open", Path: name, Err: syscall.EACCES}
